@@ -190,7 +190,7 @@ let () =
            (match get (kind_of kind) (log_of kind key) (bytes_of_string key) st2, List.find_opt (fun d -> d.dk = key) dump with
             | Some { o_vals = Some l; o_avals = Some la }, Some d -> vals_of_model l = List.sort compare d.dvals && vals_of_model la = List.sort compare d.davals
             | _ -> true) in
-         let last = if kind = "cfg3" && List.length pvals > 1 then (stat "cfg3.multi-path"; match List.find_opt fits (List.map fst pvals) with Some p -> p | None -> fst (List.hd pvals)) else "" in
+         let last = if kind = "cfg3" && List.length pvals > 1 then (stat "cfg3.multi-path"; match List.find_opt fits (List.map fst pvals @ [ "" ]) with Some p -> (if p = "" then stat "cfg3.multi-path.unaliased"); p | None -> fst (List.hd pvals)) else "" in
          let o = mk last in
          let (((st', mc), o'), published) = step (kind_of kind) mop o cur.st in
          cur.st <- st';
